@@ -837,12 +837,20 @@ pub fn gen_base(rng: &mut Rng, p: &Profile, st: &mut GenState) -> ModuleSpec {
                 _ => ElemMode::Declared,
             };
             let mut ty = None;
-            let items = if rng.chance(1, 3) {
+            let items = if rng.chance(2, 5) {
                 let mut fs = fs;
-                if rng.chance(1, 3) {
+                if rng.chance(1, 2) {
                     // a segment of concrete typed function references: every item has the type of the first
-                    if let Some(t) = m.func_type_of(fs[0]) {
-                        fs.retain(|f| m.func_type_of(*f) == Some(t));
+                    // (bodies do not exist yet: the type of a local function comes from the planned list)
+                    let type_of = |f: u32| -> Option<u32> {
+                        if f < n_imp_f {
+                            m.func_type_of(f)
+                        } else {
+                            lf_types.get((f - n_imp_f) as usize).copied()
+                        }
+                    };
+                    if let Some(t) = type_of(fs[0]) {
+                        fs.retain(|f| type_of(*f) == Some(t));
                         ty = Some((t, rng.chance(1, 2)));
                     }
                 }
